@@ -8,6 +8,7 @@ import (
 	"fmt"
 	"io"
 	"net"
+	"os"
 	"runtime"
 	"runtime/debug"
 	"sync"
@@ -85,6 +86,8 @@ type ScriptConn struct {
 	// Mutated is set when the bytes handed to Write changed while the write was in progress (a blocked write):
 	// what the peer receives is then not what was serialized for it.
 	mutBefore, mutAfter []byte
+	wdeadline           time.Time
+	wtimeouts           int
 	delivered           int
 	out                 []byte
 	closes              int
@@ -219,6 +222,20 @@ func (c *ScriptConn) Write(p []byte) (int, error) {
 		if snap == nil {
 			snap = append([]byte{}, p...)
 		}
+		if !c.wdeadline.IsZero() {
+			if !time.Now().Before(c.wdeadline) {
+				// the write deadline passed while the peer was not reading: a partial write and a timeout error
+				c.wblocked = false
+				n := len(p) / 2
+				c.out = append(c.out, p[:n]...)
+				c.wtimeouts++
+				c.Log.Add(c.ID, "write-timeout", "", n)
+				c.cond.Broadcast()
+				return n, os.ErrDeadlineExceeded
+			}
+			t := time.AfterFunc(time.Until(c.wdeadline)+time.Millisecond, func() { c.mu.Lock(); c.cond.Broadcast(); c.mu.Unlock() })
+			defer t.Stop()
+		}
 		c.wblocked = true
 		c.cond.Broadcast()
 		c.cond.Wait()
@@ -261,11 +278,34 @@ func (c *ScriptConn) Close() error {
 	return nil
 }
 
-func (c *ScriptConn) LocalAddr() net.Addr                { return addr("server") }
-func (c *ScriptConn) RemoteAddr() net.Addr               { return addr(fmt.Sprintf("client-%d", c.ID)) }
-func (c *ScriptConn) SetDeadline(t time.Time) error      { return nil }
-func (c *ScriptConn) SetReadDeadline(t time.Time) error  { return nil }
-func (c *ScriptConn) SetWriteDeadline(t time.Time) error { return nil }
+func (c *ScriptConn) LocalAddr() net.Addr  { return addr("server") }
+func (c *ScriptConn) RemoteAddr() net.Addr { return addr(fmt.Sprintf("client-%d", c.ID)) }
+
+// Write deadlines are honoured as a net.Conn does: a write that is still blocked at its deadline returns after a
+// partial write with a timeout error, and the connection stays usable. (Read deadlines are not modelled.)
+func (c *ScriptConn) SetDeadline(t time.Time) error     { return c.SetWriteDeadline(t) }
+func (c *ScriptConn) SetReadDeadline(t time.Time) error { return nil }
+func (c *ScriptConn) SetWriteDeadline(t time.Time) error {
+	c.mu.Lock()
+	c.wdeadline = t
+	c.cond.Broadcast()
+	c.mu.Unlock()
+	return nil
+}
+
+// WriteTimeouts is the number of writes that ended with a timeout error.
+func (c *ScriptConn) WriteTimeouts() int {
+	c.mu.Lock()
+	defer c.mu.Unlock()
+	return c.wtimeouts
+}
+
+// WriteDeadline returns the write deadline in force (zero: none).
+func (c *ScriptConn) WriteDeadline() time.Time {
+	c.mu.Lock()
+	defer c.mu.Unlock()
+	return c.wdeadline
+}
 
 // UnblockWrites lets blocked and future writes proceed.
 func (c *ScriptConn) UnblockWrites() {
